@@ -4,7 +4,7 @@ from props.C02 import rq
 ASSUMPTIONS = ["VOL: reference image of 2 members + 1 unused slot (about 130 bytes) with ONE structural field set to each boundary value of a list, or truncated to each length; payload symbolic; "
                "after a successful open every listing/lookup/stream/extraction call for indices 0..count+1 runs in its own try block (real exception unwinding is translated)",
                "allocation requests above VF_MAX_ALLOC fail with std::bad_alloc"]
-OUTSIDE = ["multi-field corruptions other than the listed pairs; coverage-guided mutation of large real archives", "archives with more than 2 members"]
+OUTSIDE = ["CLM archives with more than 2 members", "multi-field corruptions other than the listed pairs; coverage-guided mutation of large real archives", "archives with more than 2 members"]
 LEVEL_TEXT = ("Bounded model checking of the real archive readers over the symbolic file system: CBMC's pointer/bounds checks on every access of the translated code (each heap block, stack slot and table is its own object), "
               "front-end UB traps, termination within the unwinding bound, and the extent/usability post-conditions, for every payload of each corrupted or truncated shape.")
 LEVEL_NOTE = "Exception mode 'full': throw/catch/unwinding are translated, so behaviour after a failed call is part of the query."
@@ -46,6 +46,19 @@ def queries(tier):
     for t in lens:
         qs.append(hq("vol_trunc%03d" % t, dict(BASE, TRUNC=t), "VOL image truncated to %d of %d bytes" % (t, n)))
     qs.append(hq("vol_valid", dict(BASE), "the unmodified reference image under the same call sequence (control)"))
+    # ---- CLM reader on hostile images (2 members, 97 bytes)
+    cf = {0: ("version string", [0]), 1: ("unknown field", [0x01000000]), 2: ("packed file count", [0, 1, 3, 0x7FFFFFFF, 0xFFFFFFFF]),
+          3: ("entry 0 data offset", [0, 96, 97, 98, 0x7FFFFFFF, 0xFFFFFFFF]), 4: ("entry 0 data length", [0, 5, 6, 0x7FFFFFFF, 0xFFFFFFFF]),
+          5: ("entry 1 data offset", [94, 97, 98, 0xFFFFFFFC, 0xFFFFFFFF]), 6: ("entry 1 data length", [0, 5, 0xFFFFFFFF])}
+    for f, (fn, vals) in cf.items():
+        if tier == "quick":
+            vals = vals[:4]
+        for v in vals:
+            qs.append(Query("clm_field%d_%08x" % (f, v), "C17_lookup.cpp", "h_clm_hostile", {"CFIELD": f, "CVAL": "%du" % v}, unwind=200, vfs_n=6, vfs_cap=160, timeout=600, exc="full", max_alloc=4096,
+                            desc="CLM image with %s = 0x%x, payload symbolic: open, then every per-member call for indices 0..3" % (fn, v)))
+    for t in ([0, 59, 60, 75, 91, 92, 94, 96] if tier == "quick" else range(0, 97)):
+        qs.append(Query("clm_trunc%03d" % t, "C17_lookup.cpp", "h_clm_hostile", {"CTRUNC": t}, unwind=200, vfs_n=6, vfs_cap=160, timeout=600, exc="full", max_alloc=4096,
+                        desc="CLM image truncated to %d of 97 bytes" % t))
     # ---- WAV intake of CLM creation
     qs.append(Query("wav_find_chunk_kernel", "C03_clm.cpp", "h_find_chunk", {}, unwind=120, timeout=600,
                     desc="ClmFile::FindChunk over a reader of symbolic length <= 64 whose chunk headers are arbitrary: ends within length/8 + 1 header reads, with the chunk inside the file or an error"))
